@@ -17,7 +17,10 @@ Definition dlist (h : N) (l : list N) : N := fold_left dmix l h.
 
 Definition zenc (z : Z) : N := match z with Z0 => 0 | Zpos p => 2 * Npos p | Zneg p => 2 * Npos p + 1 end.
 Definition enc_pred (p : pred) : list N :=
-  pid p :: match panchor p with None => [0] | Some t => [1; zenc (ns t); zenc (off t)] end.
+  pid p :: match panchor p with
+           | None => [0]
+           | Some t => [1; zenc (ns t / 1000000000); Z.to_N (ns t mod 1000000000); zenc (off t)]   (* Unix(), Nanosecond(), zone *)
+           end.
 Definition enc_obj (o : obj) : list N :=
   match o with ONode n => [0; n] | OLit n => [1; n] | OPred p => 2 :: enc_pred p end.
 Definition enc_triple (t : triple) : list N := tsub t :: enc_pred (tpred t) ++ enc_obj (tobj t) ++ [trank t].
@@ -196,3 +199,25 @@ Fixpoint hist_digest (U : list triple) (P : pools) (nn : nat) (wl : bool) (s : s
 (* one digest per first operation (a group), folded over every history of the group *)
 Definition exhaustive_digests (U : list triple) (P : pools) (nn : nat) (wl : bool) (alpha : list xop) (n : nat) : list N :=
   map (fun a => fold_left (fun h xs => dmix h (hist_digest U P nn wl init 0 (a :: xs))) (all_lists alpha (Nat.pred n)) 0) alpha.
+
+(* ---------------------------------------------------------------- exhaustive option space on all sub-graphs of a tiny universe *)
+(* (LatestAnchor, FilterOptions): no filter, the six valid filters, three invalid ones, LatestAnchor alone / with a filter *)
+Definition all_modes : list (bool * option (fop * ffield)) :=
+  (false, None) ::
+  flat_map (fun o => map (fun f => (false, Some (o, f))) [FPredicate; FObject]) [FLatest; FIsImmutable; FIsTemporal] ++
+  [(false, Some (FLatest, FSubject)); (false, Some (FOpOther, FPredicate)); (false, Some (FIsTemporal, FFieldOther));
+   (true, None); (true, Some (FLatest, FPredicate))].
+
+Definition all_lopts (bs : list (option Z)) (pgs : list Z) : list lopts :=
+  flat_map (fun l => flat_map (fun u => flat_map (fun md =>
+    flat_map (fun m => map (fun o => Build_lopts m l u (fst md) (snd md) o) pgs) pgs) all_modes) bs) bs.
+
+Fixpoint subsets {A : Type} (l : list A) : list (list A) :=
+  match l with
+  | [] => [[]]
+  | x :: r => let s := subsets r in s ++ map (cons x) s
+  end.
+
+(* one digest per subset of the universe: every query x every options value on the graph holding that subset *)
+Definition options_digests (U : list triple) (qs : list query) (los : list lopts) : list N :=
+  map (fun sub => digest_lookups lookup qs los (add_triples sub empty_graph) 0) (subsets U).
